@@ -123,6 +123,15 @@ static void mzd_t_free(mzd_t *M) {
   mzd_t_cache_t *cache = &mzd_cache;
   while (cache) {
     size_t entry = M - cache->mzd;
+#if defined(M4RI_VERIF) && defined(__CPROVER__)
+    /* verification hook: CBMC leaves the difference of pointers into different allocations
+     * unconstrained; on a real (flat) address space a slot of another allocation can never lie inside
+     * this block, i.e. entry >= 64. Encode exactly that. */
+    if (!__CPROVER_same_object(M, cache->mzd)) {
+      cache = cache->next;
+      continue;
+    }
+#endif
     if (entry < 64) {
       cache->used &= ~((uint64_t)1 << entry);
       if (cache->used == 0) {
